@@ -228,7 +228,9 @@ def clear_array_attributes(entity: Entity, recursive: bool = False):
     if isinstance(entity.workspace.h5file, BytesIO):
         return
 
-    for attribute in ["vertices", "cells", "values", "prisms", "layers"]:
+    # "parts" of a curve are derived from its cells: kept without them, they would
+    # be taken for parts set by the user and the cells rebuilt (and rewritten) from them
+    for attribute in ["vertices", "cells", "parts", "values", "prisms", "layers"]:
         if hasattr(entity, attribute):
             setattr(entity, f"_{attribute}", None)
 
